@@ -37,7 +37,7 @@ def plan(tier, seed):
 
 def minimums(tier):
     return {"ops.compared": 20000, "histories.run": 1200, "cache.invariant_checks": 20000, "tokens.scanned_outputs": 10000,
-            "cli.arrays_compared": 60, "poison.histories": 80, "histories.sharing_options_objects": 500}
+            "cli.arrays_compared": 60, "cli.invocations_compared": 150, "poison.histories": 80, "histories.sharing_options_objects": 500}
 
 
 # ---------------------------------------------------------------------------
@@ -577,4 +577,28 @@ def run_cli(spec, ctx, rng, u, reg, root, tmp):
                 nm = [e.name for e in order if fresh[e.name] is not None][k] if k < len(want) else "?"
                 ctx.violation("C19/directory-order-dependent-result", "-a%s: document #%d (%s) differs from the document the same file gives "
                               "when decoded alone (%d vs %d documents)" % (" -r" if rev else "", k, nm, len(docs), len(want)))
+        # several INVOCATIONS in one process (a wrapper that calls main() repeatedly): each prints what the same command line
+        # prints in a process of its own - selection options of an earlier invocation do not stick
+        invs = [["-l"], ["-l", "-S", "Informational"], ["-a", "-H"], ["-l", "-S", "Critical", "Predictive", "-O", "-s"], ["-n", "-E"],
+                ["-l", "-N"], ["-l", "-t"], ["-n", "-S", "Recovered"], ["-a", "-P"], ["-n"], ["-l", "-E", "-r"]]
+        seq = [["-p", d.root] + a for a in rng.sample(invs, 5) + [["-l"], ["-n"], ["-a"]]]
+
+        def one(a):
+            rc, out, err, tb = harness.cli(a)
+            return [rc, out, tb]
+        alone = [forked(lambda: one(a), tmp) for a in seq]
+        together = forked(lambda: [one(a) for a in seq], tmp)
+        ctx.current = {"invocations": [a[2:] for a in seq], "files": [e.name for e in ents]}
+        ctx.case("invocations" + repr([a[2:] for a in seq]) + repr([e.name for e in ents]) + str(spec["rseed"]), True)
+        if isinstance(together, dict) or any(isinstance(x, dict) for x in alone):
+            ctx.count("cli.invocation_history_failed")
+        else:
+            for k, (a, x, y) in enumerate(zip(seq, alone, together)):
+                ctx.count("cli.invocations_compared")
+                if x != y:
+                    ctx.violation("C19/invocation-history-dependent-result",
+                                  "peltool %s as invocation #%d of one process (after %s) printed something else than in a process "
+                                  "of its own: rc %s vs %s, %s" % (" ".join(a[2:]), k, [" ".join(b[2:]) for b in seq[:k]], y[0], x[0],
+                                                                   diffline(x[1], y[1])))
+                    break
         d.remove()
